@@ -388,7 +388,7 @@ def write_evidence(prop, tier, seed, spec, obls, outcomes, known_hits, violation
     vccs = 0
     for o in obls:
         oc, det = outcomes[o.id]
-        st = det.get("stats", {}) if isinstance(det, dict) else {}
+        st = (det.get("stats") or {}) if isinstance(det, dict) else {}
         solver_s += float(st.get("runtime_solver_s", 0) or 0) + float(det.get("solver_s", 0) or 0)
         vccs += int(det.get("n_checks", 0) or 0)
         samples.append({
